@@ -50,7 +50,7 @@ package igc
 //@   ensures [accepts] (len(line) >= p.bRecordLen && p.tdsStart == 0 && p.ladStart == 0 && p.lodStart == 0 && allDigits(line, 1, 14) && allDigits(line, 15, 23) && allDigits(line, 25, 35) && (line[14] == 78 || line[14] == 83) && (line[23] == 69 || line[23] == 87) && igcTime(decVal(line, 1, 3), decVal(line, 3, 5), decVal(line, 5, 7)) && igcFix(decVal(line, 7, 9), decVal(line, 9, 14), decVal(line, 15, 18), decVal(line, 18, 23), decVal(line, 25, 30))) ==> res == nil
 //@   at exit: use wholeStep(old(len(p.coords)), 5)
 //@   modifies *p, spare(p.coords)
-//@   at stmt21: assert [midnight-rollover] p.day == old(p.day) + (dateNs(p.year, p.month, old(p.day), hour, minute, second, nsec) < tNs(old(p.lastDate)) ? 1 : 0) && tNs(date) == dateNs(p.year, p.month, p.day, hour, minute, second, nsec) && p.lastDate == old(p.lastDate)
+//@   at stmt[if date.Before(p.lastDate)]: assert [midnight-rollover] p.day == old(p.day) + (dateNs(p.year, p.month, old(p.day), hour, minute, second, nsec) < tNs(old(p.lastDate)) ? 1 : 0) && tNs(date) == dateNs(p.year, p.month, p.day, hour, minute, second, nsec) && p.lastDate == old(p.lastDate)
 
 //@ func parser.parseLine
 //@   requires igcInv(p) && whole(len(p.coords), 5) && len(line) > 0
